@@ -558,6 +558,9 @@ class Spectrum(numpy.ma.masked_array):
             # Mask entry if any of the contributing entries are masked
             new_fs.mask[new_index] = (new_fs.mask[new_index] or self.mask[index])
 
+        # Combining a folded spectrum yields the folded combined spectrum.
+        new_fs.folded = self.folded
+
         return new_fs
 
     def filter_pops(self, tokeep, mask_corners=True):
